@@ -5,7 +5,7 @@ MK = 'src/saveload/marker.rs'
 
 
 def build():
-    u = Unit('marker', prelude=[], spec=['marker/spec.rs'], files=[MK])
+    u = Unit('marker', prelude=[('prelude/uuid.rs', 'private')], spec=['marker/spec.rs'], files=[MK])
     u.struct(MK, ['struct SimpleMarker'], derive='Clone, Copy', rules=[('N10', r'T: \?Sized', 'T')])
     u.struct(MK, ['struct SimpleMarkerAllocator'], rules=[('N10', r'T: \?Sized', 'T')])
     u.fn(MK, ['impl<T> Marker for SimpleMarker<T>', 'fn id'], ret='r', props='C15', impl_header='impl<T> SimpleMarker<T>', key='SimpleMarker::id',
@@ -21,5 +21,25 @@ def build():
                   E('counter', 'final(self).index == (match id { Some(i) => max64(old(self).index, (i + 1) as u64), None => (old(self).index + 1) as u64 })'),
                   E('table', 'final(self).mapping@ == old(self).mapping@.insert(r.0, entity)')])
     u.fn(MK, [AH, 'fn retrieve_entity_internal'], ret='r', props='C15', impl_header=AI, key='SimpleMarkerAllocator::retrieve_entity_internal',
+         ensures=[E('lookup', 'r == (if self.mapping@.dom().contains(id) { Some(self.mapping@[id]) } else { None })')])
+    # ---- the UUID marker allocator (src/saveload/uuid.rs; compiled under the `uuid_entity` feature)
+    UU = 'src/saveload/uuid.rs'
+    u.files = u.files + [UU]
+    u.struct(UU, ['struct UuidMarker'], derive='Clone')
+    u.struct(UU, ['struct UuidMarkerAllocator'])
+    u.fn(UU, ['impl UuidMarker', 'fn new'], ret='r', props='C15', key='UuidMarker::new', ensures=[E('val', 'r.uuid == uuid')])
+    u.fn(UU, ['impl UuidMarker', 'fn new_random'], ret='r', props='C15', key='UuidMarker::new_random',
+         rules=[('N10', r'Uuid::new_v4\(\)', 'uuid_new_v4()')])
+    u.fn(UU, ['impl UuidMarker', 'fn uuid'], ret='r', props='C15', key='UuidMarker::uuid', ensures=[E('val', 'r == self.uuid')])
+    u.fn(UU, ['impl Marker for UuidMarker', 'fn id'], ret='r', props='C15', impl_header='impl UuidMarker', key='UuidMarker::id',
+         ensures=[E('val', 'r == self.uuid')])
+    u.fn(UU, ['impl UuidMarkerAllocator', 'fn new'], ret='r', props='C15', key='UuidMarkerAllocator::new',
+         ensures=[E('empty', 'r.mapping@ == Map::<Uuid, Entity>::empty()')])
+    UH = 'impl MarkerAllocator<UuidMarker> for UuidMarkerAllocator'
+    UI = 'impl UuidMarkerAllocator'
+    u.fn(UU, [UH, 'fn allocate'], ret='r', props='C15', impl_header=UI, key='UuidMarkerAllocator::allocate',
+         ensures=[E('id', 'id is Some ==> r.uuid == id->0'),
+                  E('table', 'final(self).mapping@ == old(self).mapping@.insert(r.uuid, entity)')])
+    u.fn(UU, [UH, 'fn retrieve_entity_internal'], ret='r', props='C15', impl_header=UI, key='UuidMarkerAllocator::retrieve_entity_internal',
          ensures=[E('lookup', 'r == (if self.mapping@.dom().contains(id) { Some(self.mapping@[id]) } else { None })')])
     return u
